@@ -1,13 +1,721 @@
-(* htp_response.c: the response-side parser states and htp_connp_res_data. *)
-Require Import Htp.Model.MConnTypes Htp.Model.MTxCommon.
+(* htp_response.c: the response-side parser states and htp_connp_res_data.
+   Code-shaped transcription: every htp_connp_RES_* state function is a function connp -> st * connp,
+   the byte macros are small functions on the c_out cursor with CHECKED reads (an index outside the
+   caller's chunk, or a read through a NULL chunk pointer, sets c_fault), every append to out_buf
+   goes through rs_res_buffer, and the places where the C moves out_current_read_offset BACKWARDS
+   (RES_BODY_CHUNKED_LENGTH on an invalid length, RES_FINALIZE un-read) do the same here.
+   Loops that consume one byte per iteration recurse on explicit fuel (remaining bytes + 1); running out
+   of fuel sets c_fault and returns HTP_ERROR (it cannot happen: see rs_*_fuel). *)
+Require Import Htp.Model.MConnTypes Htp.Model.MTxCommon Htp.Model.MBstr Htp.Model.MResLine Htp.Model.MTxRes.
 Local Open Scope Z_scope.
 
 Section WithOracle.
 Variable cb : cb_oracle.
 Variable g : cfg.
 
-(* STUB: to be replaced by the transcription of htp_connp_res_data. *)
+(* ---- access to connp->out_tx ---- *)
+Definition rs_tx (c : connp) : tx := match c_out_tx c with Some i => tx_get c i | None => tx_new 0 0 end.
+(* a write through connp->out_tx; NULL dereferenced = fault *)
+Definition rs_otx (f : tx -> tx) (c : connp) : connp :=
+  match c_out_tx c with Some i => tx_upd c i f | None => c <| c_fault := true |> end.
+Definition rs_fault (c : connp) : connp := c <| c_fault := true |>.
+Definition rs_closed (c : connp) : bool := c_out_status c =? c_HTP_STREAM_CLOSED.
+Definition rs_set_state (s : res_state) (c : connp) : connp := c <| c_out_state := s |>.
+
+(* ---- the byte macros ---- *)
+(* out_current_data[i], checked *)
+Definition rs_cur_byte (c : connp) (i : nat) : option N :=
+  match k_data (c_out c) with
+  | Some d => if (i <? k_len (c_out c))%nat then nth_error d i else None
+  | None => None
+  end.
+(* reads out_current_data[read_offset] into out_next_byte *)
+Definition rs_load_next (c : connp) : connp :=
+  match rs_cur_byte c (k_read (c_out c)) with
+  | Some b => rs_set_out (fun k => k <| k_next_byte := Some b |>) c
+  | None => rs_fault (rs_set_out (fun k => k <| k_next_byte := None |>) c)
+  end.
+Definition rs_has_byte (c : connp) : bool := (k_read (c_out c) <? k_len (c_out c))%nat.
+(* OUT_PEEK_NEXT *)
+Definition rs_peek_next (c : connp) : connp :=
+  if rs_has_byte c then rs_load_next c else rs_set_out (fun k => k <| k_next_byte := None |>) c.
+(* OUT_COPY_BYTE_OR_RETURN: None = no byte left (the caller returns HTP_DATA_BUFFER) *)
+Definition rs_copy_byte (c : connp) : option connp :=
+  if rs_has_byte c then Some (rs_set_out (fun k => k <| k_read ::= S |>) (rs_load_next c)) else None.
+(* OUT_NEXT_BYTE_OR_RETURN: None = no byte left (the caller returns HTP_DATA) *)
+Definition rs_next_byte (c : connp) : option connp :=
+  if rs_has_byte c then Some (rs_set_out (fun k => k <| k_read ::= S |> <| k_consume ::= S |>) (rs_load_next c)) else None.
+Definition rs_nb (c : connp) : option N := k_next_byte (c_out c).
+Definition rs_nb_is (c : connp) (b : N) : bool := match rs_nb c with Some x => (x =? b)%N | None => false end.
+
+(* the bytes [consume, read) of the caller's chunk: data + consume_offset, len = read - consume.
+   read < consume would wrap the size_t length: fault *)
+Definition rs_unconsumed (c : connp) : bytes :=
+  let k := c_out c in
+  match k_data k with Some d => rs_sub d (k_consume k) (k_read k) | None => [] end.
+
+(* ---- htp_connp_res_buffer: THE function through which every byte enters out_buf ---- *)
+Definition rs_res_buffer (c : connp) : st * connp :=
+  let k := c_out c in
+  match k_data k with
+  | None => (ST_OK, c)
+  | Some d =>
+    let c := if (k_read k <? k_consume k)%nat then rs_fault c else c in
+    let chunk := rs_sub d (k_consume k) (k_read k) in
+    let buf_size := match k_buf k with Some b => length b | None => 0%nat end in
+    let newlen := (buf_size + length chunk + match k_header k with Some h => length h | None => 0 end)%nat in
+    let c := match c_out_tx c with None => rs_fault c | Some _ => c end in        (* connp->out_tx->cfg->field_limit_hard *)
+    if (g_field_limit_hard g <? newlen)%nat then (ST_ERROR, c)
+    else
+      let nb := match k_buf k with Some b => b ++ chunk | None => chunk end in
+      (ST_OK, rs_set_out (fun k => k <| k_buf := Some nb |> <| k_consume := k_read k |>) c)
+  end.
+
+(* htp_connp_res_consolidate_data: None = HTP_ERROR; Some data where data = None is a NULL pointer (len 0) *)
+Definition rs_consolidate (c : connp) : option (option bytes) * connp :=
+  let k := c_out c in
+  match k_buf k with
+  | None =>
+    match k_data k with
+    | Some d =>
+      let c := if (k_read k <? k_consume k)%nat then rs_fault c else c in
+      (Some (Some (rs_sub d (k_consume k) (k_read k))), c)
+    | None =>
+      (* NULL + consume_offset, len = read - consume: only NULL + 0 with len 0 is a NULL pointer with no bytes *)
+      let c := if (0 <? k_consume k)%nat || negb (k_read k =? k_consume k)%nat then rs_fault c else c in
+      (Some None, c)
+    end
+  | Some _ =>
+    match rs_res_buffer c with
+    | (ST_OK, c) => (Some (k_buf (c_out c)), c)
+    | (_, c) => (None, c)
+    end
+  end.
+Definition rs_dbytes (d : option bytes) : bytes := match d with Some x => x | None => [] end.
+
+(* htp_connp_res_clear_buffer *)
+Definition rs_clear_buffer (c : connp) : connp :=
+  rs_set_out (fun k => k <| k_consume := k_read k |> <| k_buf := None |>) c.
+
+(* ---- htp_res_handle_state_change ---- *)
+Definition rs_handle_state_change (c : connp) : st * connp :=
+  let same := match c_out_state_previous c with Some p => res_state_eqb p (c_out_state c) | None => false end in
+  if same then (ST_OK, c)
+  else
+    let '(rc, c) :=
+      if res_state_eqb (c_out_state c) RES_HEADERS then
+        let p := t_response_progress (rs_tx c) in
+        let c := match c_out_tx c with None => rs_fault c | Some _ => c end in
+        if p =? c_HTP_RESPONSE_HEADERS then res_receiver_set cb H_RESPONSE_HEADER_DATA c
+        else if p =? c_HTP_RESPONSE_TRAILER then res_receiver_set cb H_RESPONSE_TRAILER_DATA c
+        else (ST_OK, c)
+      else (ST_OK, c) in
+    match rc with
+    | ST_OK => (ST_OK, c <| c_out_state_previous := Some (c_out_state c) |>)
+    | _ => (rc, c)
+    end.
+
+(* fuel of the byte loops: every iteration that does not return consumes one byte of the chunk *)
+Definition rs_bytes_fuel (c : connp) : nat := S (S (k_len (c_out c) - k_read (c_out c))).
+
+(* body data taken from the caller's chunk at the read offset: out_current_data + read_offset, n bytes.
+   NULL + 0 (gap) stays NULL; NULL + k is a wild pointer *)
+Definition rs_body_slice (c : connp) (n : nat) : option bytes * connp :=
+  let k := c_out c in
+  match k_data k with
+  | Some d => (Some (firstn n (skipn (k_read k) d)), c)
+  | None => (None, if (0 <? k_read k)%nat then rs_fault c else c)
+  end.
+Definition rs_advance (n : nat) (c : connp) : connp :=
+  rs_set_out (fun k => k <| k_read := (k_read k + n)%nat |> <| k_consume := (k_consume k + n)%nat |>) c.
+Definition rs_process_body (data : option bytes) (len : nat) (c : connp) : st * connp :=
+  match c_out_tx c with
+  | Some i => tx_res_process_body_data_ex cb i data len c
+  | None => (ST_ERROR, c)                       (* if (tx == NULL) return HTP_ERROR *)
+  end.
+
+(* ---- htp_connp_RES_BODY_CHUNKED_DATA_END ---- *)
+Fixpoint rs_chunked_data_end_loop (fuel : nat) (c : connp) : st * connp :=
+  match fuel with
+  | O => (ST_ERROR, rs_fault c)
+  | S f =>
+    match rs_next_byte c with
+    | None => (ST_DATA, c)
+    | Some c =>
+      let c := rs_otx (fun t => t <| t_response_message_len ::= Z.succ |>) c in
+      if rs_nb_is c LF then (ST_OK, rs_set_state RES_BODY_CHUNKED_LENGTH c)
+      else rs_chunked_data_end_loop f c
+    end
+  end.
+Definition rs_RES_BODY_CHUNKED_DATA_END (c : connp) : st * connp := rs_chunked_data_end_loop (rs_bytes_fuel c) c.
+
+(* bytes_to_consume = min(out_current_len - read_offset, left) with the comparison done in size_t
+   (a negative int64 converts to a huge value) *)
+Definition rs_bytes_to_consume (c : connp) (left : Z) : nat :=
+  let avail := (k_len (c_out c) - k_read (c_out c))%nat in
+  if left <? 0 then avail else if left <=? Z.of_nat avail then Z.to_nat left else avail.
+
+(* ---- htp_connp_RES_BODY_CHUNKED_DATA ---- *)
+Definition rs_RES_BODY_CHUNKED_DATA (c : connp) : st * connp :=
+  let n := rs_bytes_to_consume c (c_out_chunked_length c) in
+  if (n =? 0)%nat then (ST_DATA, c)
+  else
+    let '(data, c) := rs_body_slice c n in
+    match rs_process_body data n c with
+    | (ST_OK, c) =>
+      let c := rs_advance n c in
+      let c := c <| c_out_chunked_length := c_out_chunked_length c - Z.of_nat n |> in
+      if c_out_chunked_length c =? 0 then (ST_OK, rs_set_state RES_BODY_CHUNKED_DATA_END c)
+      else (ST_DATA, c)
+    | r => r
+    end.
+
+(* ---- htp_connp_RES_BODY_CHUNKED_LENGTH ---- *)
+Fixpoint rs_chunked_length_loop (fuel : nat) (c : connp) : st * connp :=
+  match fuel with
+  | O => (ST_ERROR, rs_fault c)
+  | S f =>
+    match rs_copy_byte c with
+    | None => (ST_DATA_BUFFER, c)
+    | Some c =>
+      let nb := match rs_nb c with Some b => b | None => 0%N end in
+      if (nb =? LF)%N || (negb (rs_is_chunked_ctl_char nb) && negb (rs_data_probe_chunk_length (rs_unconsumed c))) then
+        match rs_consolidate c with
+        | (None, c) => (ST_ERROR, c)
+        | (Some data, c) =>
+          let d := rs_dbytes data in
+          let len := length d in
+          let c := rs_otx (fun t => t <| t_response_message_len ::= Z.add (Z.of_nat len) |>) c in
+          let cl := fst (parse_chunked_length d) in
+          let c := c <| c_out_chunked_length := cl |> in
+          if cl =? -1004 then rs_chunked_length_loop f (rs_clear_buffer c)        (* empty chunk length line: continue *)
+          else if cl <? 0 then
+            (* un-read the line so that RES_BODY_IDENTITY_STREAM_CLOSE sees its bytes; the buffer is NOT cleared *)
+            let c := rs_set_out (fun k => k <| k_read := if (k_read k <? len)%nat then 0%nat else (k_read k - len)%nat |>) c in
+            let c := rs_set_state RES_BODY_IDENTITY_STREAM_CLOSE c in
+            (ST_OK, rs_otx (fun t => t <| t_response_transfer_coding := c_HTP_CODING_IDENTITY |>) c)
+          else
+            let c := rs_clear_buffer c in
+            if 0 <? cl then (ST_OK, rs_set_state RES_BODY_CHUNKED_DATA c)
+            else
+              let c := rs_set_state RES_HEADERS c in
+              (ST_OK, rs_otx (fun t => t <| t_response_progress := c_HTP_RESPONSE_TRAILER |>) c)
+        end
+      else rs_chunked_length_loop f c
+    end
+  end.
+Definition rs_RES_BODY_CHUNKED_LENGTH (c : connp) : st * connp := rs_chunked_length_loop (rs_bytes_fuel c) c.
+
+(* ---- htp_connp_RES_BODY_IDENTITY_CL_KNOWN ---- *)
+Definition rs_RES_BODY_IDENTITY_CL_KNOWN (c : connp) : st * connp :=
+  let n := rs_bytes_to_consume c (c_out_body_data_left c) in
+  if rs_closed c then rs_process_body None 0 (rs_set_state RES_FINALIZE c)
+  else if (n =? 0)%nat then (ST_DATA, c)
+  else
+    let '(data, c) := rs_body_slice c n in
+    match rs_process_body data n c with
+    | (ST_OK, c) =>
+      let c := rs_advance n c in
+      let c := c <| c_out_body_data_left := c_out_body_data_left c - Z.of_nat n |> in
+      if c_out_body_data_left c =? 0 then rs_process_body None 0 (rs_set_state RES_FINALIZE c)
+      else (ST_DATA, c)
+    | r => r
+    end.
+
+(* ---- htp_connp_RES_BODY_IDENTITY_STREAM_CLOSE ---- *)
+Definition rs_RES_BODY_IDENTITY_STREAM_CLOSE (c : connp) : st * connp :=
+  let n := (k_len (c_out c) - k_read (c_out c))%nat in
+  let c := if (k_len (c_out c) <? k_read (c_out c))%nat then rs_fault c else c in
+  let '(rc, c) :=
+    if (n =? 0)%nat then (ST_OK, c)
+    else
+      let '(data, c) := rs_body_slice c n in
+      match rs_process_body data n c with
+      | (ST_OK, c) => (ST_OK, rs_advance n c)
+      | r => r
+      end in
+  match rc with
+  | ST_OK => if rs_closed c then (ST_OK, rs_set_state RES_FINALIZE c) else (ST_DATA, c)
+  | _ => (rc, c)
+  end.
+
+(* ---- htp_connp_RES_BODY_DETERMINE ---- *)
+Definition rs_unblock_request (st_new : Z) (c : connp) : connp :=
+  if negb (c_in_status c =? c_HTP_STREAM_ERROR) then c <| c_in_status := st_new |> else c.
+Definition rs_response_headers (c : connp) : st * connp :=
+  match c_out_tx c with
+  | Some i => tx_state_response_headers cb i c
+  | None => (ST_ERROR, c)
+  end.
+(* response_content_type = bstr_dup_lower(ct->value) cut at the first htp_is_space byte or ';' *)
+Definition rs_content_type (v : bytes) : bytes :=
+  take_while (fun b => negb (htp_is_space b || (b =? 59)%N)) (to_lowercase v).
+
+Definition rs_RES_BODY_DETERMINE (c : connp) : st * connp :=
+  let t := rs_tx c in
+  let sn := t_response_status_number t in
+  let is_connect := t_request_method_number t =? c_HTP_M_CONNECT in
+  if is_connect && (200 <=? sn) && (sn <=? 299) then
+    rs_response_headers (rs_set_state RES_FINALIZE c)
+  else
+    let c := if is_connect then
+               if sn =? 407 then rs_unblock_request c_HTP_STREAM_DATA c
+               else (rs_unblock_request c_HTP_STREAM_DATA c) <| c_out_data_other_at_tx_end := true |>
+             else c in
+    let cl := rs_hdr_get_c (t_response_headers t) rs_str_content_length in
+    let te := rs_hdr_get_c (t_response_headers t) rs_str_transfer_encoding in
+    let no_cl := match cl with None => true | Some _ => false end in
+    let no_te := match te with None => true | Some _ => false end in
+    if (sn =? 101) && no_te && no_cl then
+      let c := rs_set_state RES_FINALIZE c in
+      let c := rs_unblock_request c_HTP_STREAM_TUNNEL c in
+      rs_response_headers (c <| c_out_status := c_HTP_STREAM_TUNNEL |>)
+    else
+      let is100continue :=
+        (sn =? 100) && no_te &&
+        match cl with Some h => negb (0 <? parse_content_length (h_value h)) | None => true end in
+      if is100continue then
+        let c := rs_otx (fun t => t <| t_response_headers := [] |> <| t_response_progress := c_HTP_RESPONSE_LINE |>
+                                    <| t_seen_100continue ::= S |>) c in
+        (ST_OK, rs_set_state RES_LINE c)
+      else
+        (* Expect: 100-continue answered by a 4xx before the body was sent *)
+        let c := if (400 <=? sn) && (sn <=? 499) && (0 <? c_in_content_length c)
+                    && (c_in_body_data_left c =? c_in_content_length c) then
+                   match rs_hdr_get_c (t_request_headers t) rs_str_expect with
+                   | Some e => if cmp_mem_nocase (h_value e) rs_str_100_continue =? 0 then c <| c_in_state := REQ_FINALIZE |> else c
+                   | None => c
+                   end
+                 else c in
+        let c := if t_request_method_number t =? c_HTP_M_HEAD then
+                   rs_set_state RES_FINALIZE (rs_otx (fun t => t <| t_response_transfer_coding := c_HTP_CODING_NO_BODY |>) c)
+                 else if ((100 <=? sn) && (sn <=? 199)) || (sn =? 204) || (sn =? 304) then
+                   if no_te && no_cl then
+                     rs_set_state RES_FINALIZE (rs_otx (fun t => t <| t_response_transfer_coding := c_HTP_CODING_NO_BODY |>) c)
+                   else c
+                 else c in
+        let '(rc, c) :=
+          if negb (res_state_eqb (c_out_state c) RES_FINALIZE) then
+            let ct := rs_hdr_get_c (t_response_headers t) rs_str_content_type in
+            let c := match ct with
+                     | Some h => rs_otx (fun t => t <| t_response_content_type := Some (rs_content_type (h_value h)) |>) c
+                     | None => c
+                     end in
+            let te_chunked := match te with
+                              | Some h => negb (index_of_mem_nocasenorzero (h_value h) rs_str_chunked =? -1)
+                              | None => false
+                              end in
+            if te_chunked then
+              let c := rs_otx (fun t =>
+                         let t := t <| t_response_transfer_coding := c_HTP_CODING_CHUNKED |> in
+                         let t := if no_cl then t else t <| t_flags := flag_set (t_flags t) c_HTP_REQUEST_SMUGGLING |> in
+                         t <| t_response_progress := c_HTP_RESPONSE_BODY |>) c in
+              (ST_OK, rs_set_state RES_BODY_CHUNKED_LENGTH c)
+            else
+              match cl with
+              | Some h =>
+                let v := parse_content_length (h_value h) in
+                let c := rs_otx (fun t =>
+                           let t := t <| t_response_transfer_coding := c_HTP_CODING_IDENTITY |> in
+                           let t := if flag_has (h_flags h) c_HTP_FIELD_REPEATED
+                                    then t <| t_flags := flag_set (t_flags t) c_HTP_REQUEST_SMUGGLING |> else t in
+                           t <| t_response_content_length := v |>) c in
+                if v <? 0 then (ST_ERROR, c)
+                else
+                  let c := c <| c_out_content_length := v |> <| c_out_body_data_left := v |> in
+                  if negb (v =? 0) then
+                    (ST_OK, rs_set_state RES_BODY_IDENTITY_CL_KNOWN
+                              (rs_otx (fun t => t <| t_response_progress := c_HTP_RESPONSE_BODY |>) c))
+                  else (ST_OK, rs_set_state RES_FINALIZE c)
+              | None =>
+                let byteranges := match ct with
+                                  | Some h => negb (index_of_mem_nocase (h_value h) rs_str_multipart_byteranges =? -1)
+                                  | None => false
+                                  end in
+                if byteranges then (ST_ERROR, c)
+                else
+                  let c := rs_set_state RES_BODY_IDENTITY_STREAM_CLOSE c in
+                  let c := rs_otx (fun t => t <| t_response_transfer_coding := c_HTP_CODING_IDENTITY |>
+                                              <| t_response_progress := c_HTP_RESPONSE_BODY |>) c in
+                  (ST_OK, c <| c_out_body_data_left := -1 |>)
+              end
+          else (ST_OK, c) in
+        match rc with
+        | ST_OK => rs_response_headers c
+        | _ => (rc, c)
+        end.
+
+(* ---- htp_connp_RES_HEADERS ---- *)
+(* connp->cfg->process_response_header (htp_process_response_header_generic for every personality) *)
+Definition rs_process_header (line : bytes) (c : connp) : connp := rs_otx (rs_process_response_header line) c.
+(* "Parse previous header, if any": process out_header and free it *)
+Definition rs_flush_header (c : connp) : connp :=
+  match k_header (c_out c) with
+  | Some h => rs_set_out (fun k => k <| k_header := None |>) (rs_process_header h c)
+  | None => c
+  end.
+Definition rs_set_header (h : bytes) (c : connp) : connp := rs_set_out (fun k => k <| k_header := Some h |>) c.
+Definition rs_flag_invalid_folding (c : connp) : connp :=
+  rs_otx (fun t => t <| t_flags := flag_set (t_flags t) c_HTP_INVALID_FOLDING |>) c.
+(* end of the trailer / of a header block cut by close: finalize receiver, hook RESPONSE_TRAILER, go to FINALIZE *)
+Definition rs_trailer_end (c : connp) : st * connp :=
+  match res_receiver_finalize_clear cb c with
+  | (ST_OK, c) =>
+    match run_hook cb H_RESPONSE_TRAILER (out_txi c) c with
+    | (ST_OK, c) => (ST_OK, rs_set_state RES_FINALIZE c)
+    | r => r
+    end
+  | r => r
+  end.
+
+(* what happens with one consolidated header line (after the line-end scan) *)
+Definition rs_headers_line (data : bytes) (c : connp) : option (st * connp) * connp :=
+  (* None in the first component: the for(;;) loop continues *)
+  let next_no_lf := match rs_cur_byte c (k_read (c_out c)) with
+                    | Some b => rs_has_byte c && negb (b =? LF)%N
+                    | None => false
+                    end in
+  let c := if rs_has_byte c then match rs_cur_byte c (k_read (c_out c)) with Some _ => c | None => rs_fault c end else c in
+  if rs_is_line_terminator (g_personality g) data next_no_lf then
+    let c := rs_clear_buffer (rs_flush_header c) in
+    if t_response_progress (rs_tx c) =? c_HTP_RESPONSE_HEADERS then (Some (ST_OK, rs_set_state RES_BODY_DETERMINE c), c)
+    else (Some (rs_trailer_end c), c)
+  else
+    let d := fst (rs_chomp data) in
+    let c :=
+      if rs_is_line_folded d =? 0 then
+        (* new header line *)
+        let c := rs_peek_next (rs_flush_header c) in
+        match rs_nb c with
+        | Some b => if negb (htp_is_folding_char b) then rs_process_header d c else rs_set_header d c
+        | None => rs_set_header d c
+        end
+      else
+        match k_header (c_out c) with
+        | None =>
+          (* invalid folding: keep the line without its leading folding characters *)
+          rs_set_header (drop_while htp_is_folding_char d) (rs_flag_invalid_folding c)
+        | Some h =>
+          let colon_pos := rs_fwd_while (fun b => negb (b =? 58)%N) d 0 in
+          if (colon_pos <? length d)%nat && (0 <=? bstr_chr h 58) && (t_response_protocol_number (rs_tx c) =? c_HTP_PROTOCOL_1_1) then
+            let c := rs_process_header h (rs_flag_invalid_folding c) in
+            rs_set_header (skipn 1 d) c
+          else if Z.of_nat (length h) <? c_HTP_MAX_HEADER_FOLDED then rs_set_header (h ++ d) c
+          else c
+        end in
+    (None, rs_clear_buffer c).
+
+Fixpoint rs_headers_loop (fuel : nat) (lfcrending : bool) (c : connp) : st * connp :=
+  match fuel with
+  | O => (ST_ERROR, rs_fault c)
+  | S f =>
+    if rs_closed c then rs_trailer_end c
+    else
+      match rs_copy_byte c with
+      | None => (ST_DATA_BUFFER, c)
+      | Some c =>
+        if negb (rs_nb_is c LF) && negb (rs_nb_is c CR) then rs_headers_loop f false c
+        else
+          (* scan result: SC_RETURN (return HTP_DATA_BUFFER) | SC_CONTINUE | SC_LINE endwithcr lfcrending' *)
+          let '(scan, c) :=
+            if rs_nb_is c CR then
+              let c := rs_peek_next c in
+              match rs_nb c with
+              | None => (0%nat, c)                                   (* return HTP_DATA_BUFFER *)
+              | Some b =>
+                if (b =? LF)%N then
+                  let c := match rs_copy_byte c with Some c => c | None => rs_fault c end in
+                  let c :=
+                    if lfcrending then
+                      (* LF CR CR LF CR LF: only two ends of line *)
+                      let c := rs_peek_next c in
+                      if rs_nb_is c CR then
+                        let c := match rs_copy_byte c with Some c => c | None => rs_fault c end in
+                        let c := rs_set_out (fun k => k <| k_consume ::= S |>) c in
+                        let c := rs_peek_next c in
+                        if rs_nb_is c LF then
+                          let c := match rs_copy_byte c with Some c => c | None => rs_fault c end in
+                          rs_set_out (fun k => k <| k_consume ::= S |>) c
+                        else c
+                      else c
+                    else c in
+                  (2%nat, c)                                         (* line, endwithcr = 1, lfcrending = 0 *)
+                else if (b =? CR)%N then (1%nat, c)                  (* continue; lfcrending unchanged *)
+                else (2%nat, c)
+              end
+            else
+              (* LF *)
+              let c := rs_peek_next c in
+              if rs_nb_is c CR then
+                (* LF-CR taken as the end of line (trace point 1) *)
+                let c := match rs_copy_byte c with Some c => c | None => rs_fault c end in
+                (4%nat, c)                                           (* line, endwithcr = 0, lfcrending = 1 *)
+              else (3%nat, c) in                                     (* line, endwithcr = 0, lfcrending = 0 *)
+          match scan with
+          | 0%nat => (ST_DATA_BUFFER, c)
+          | 1%nat => rs_headers_loop f lfcrending c
+          | _ =>
+            let endwithcr := (scan =? 2)%nat in
+            let lfcr' := (scan =? 4)%nat in
+            match rs_consolidate c with
+            | (None, c) => (ST_ERROR, c)
+            | (Some data, c) =>
+              let d := rs_dbytes data in
+              (* CRCRLF is not an empty line *)
+              if endwithcr && (length d <? 2)%nat then rs_headers_loop f lfcr' c
+              else
+                match rs_headers_line d c with
+                | (Some r, _) => r
+                | (None, c) => rs_headers_loop f lfcr' c
+                end
+            end
+          end
+      end
+  end.
+Definition rs_RES_HEADERS (c : connp) : st * connp := rs_headers_loop (rs_bytes_fuel c) false c.
+
+(* ---- htp_connp_RES_LINE ---- *)
+(* the part of the loop body after a complete line has been recognised *)
+Definition rs_line_complete (c : connp) : st * connp :=
+  match rs_consolidate c with
+  | (None, c) => (ST_ERROR, c)
+  | (Some data, c) =>
+    let d := rs_dbytes data in
+    if rs_is_line_ignorable (g_personality g) d then
+      let c := if rs_closed c then rs_set_state RES_FINALIZE c else c in
+      let c := rs_otx (fun t => t <| t_response_ignored_lines ::= S |>) c in
+      (ST_OK, rs_clear_buffer c)
+    else
+      let c := rs_otx (fun t => t <| t_response_line := None |> <| t_response_protocol := None |>
+                                  <| t_response_status := None |> <| t_response_message := None |>) c in
+      let '(dc, chomp_result) := rs_chomp d in
+      let datac := match data with Some _ => Some dc | None => None end in
+      if rs_treat_response_line_as_body datac then
+        let k := c_out c in
+        let skip := (S (k_read k) <? k_len k)%nat &&
+                    (match rs_cur_byte c (k_read k) with Some b => (b =? 72)%N | None => false end || (length dc <=? 2)%nat) in
+        let c := if (S (k_read k) <? k_len k)%nat then match rs_cur_byte c (k_read k) with Some _ => c | None => rs_fault c end else c in
+        if skip then
+          (* "if we have a next line beginning with H, skip this one" *)
+          let c := rs_otx (fun t => t <| t_response_ignored_lines ::= S |>) c in
+          (ST_OK, rs_clear_buffer c)
+        else
+          let c := rs_otx (fun t => t <| t_res_cep := c_HTP_COMPRESSION_NONE |>) c in
+          let c := rs_set_out (fun k => k <| k_consume := k_read k |>) c in
+          let blen := (length dc + Z.to_nat chomp_result)%nat in
+          let bdata := match data with Some x => Some (firstn blen x) | None => None end in
+          let '(rc, c) := rs_process_body bdata blen c in
+          let c := rs_clear_buffer c in
+          match rc with
+          | ST_OK =>
+            if (k_len (c_out c) <=? k_read (c_out c))%nat then
+              let c := rs_otx (fun t => t <| t_response_transfer_coding := c_HTP_CODING_IDENTITY |>
+                                          <| t_response_progress := c_HTP_RESPONSE_BODY |>) c in
+              (ST_OK, rs_set_state RES_FINALIZE (c <| c_out_body_data_left := -1 |>))
+            else (ST_OK, c)
+          | _ => (rc, c)
+          end
+      else
+        let c := rs_otx (fun t => rs_apply_response_line (rs_parse_response_line dc) (t <| t_response_line := Some dc |>)) c in
+        match tx_state_response_line cb (out_txi c) c with
+        | (ST_OK, c) =>
+          let c := rs_clear_buffer c in
+          let c := rs_set_state RES_HEADERS c in
+          (ST_OK, rs_otx (fun t => t <| t_response_progress := c_HTP_RESPONSE_HEADERS |>) c)
+        | r => r
+        end
+  end.
+
+Fixpoint rs_line_loop (fuel : nat) (c : connp) : st * connp :=
+  match fuel with
+  | O => (ST_ERROR, rs_fault c)
+  | S f =>
+    let step := if negb (rs_closed c) then rs_copy_byte c else Some c in
+    match step with
+    | None => (ST_DATA_BUFFER, c)
+    | Some c =>
+      (* CR: look at the byte after it *)
+      let '(act, c) :=
+        if rs_nb_is c CR then
+          let c := rs_peek_next c in
+          match rs_nb c with
+          | None => (0%nat, c)                                   (* return HTP_DATA_BUFFER *)
+          | Some b => if (b =? LF)%N then (1%nat, c)             (* continue *)
+                      else (2%nat, rs_set_out (fun k => k <| k_next_byte := Some LF |>) c)
+          end
+        else (2%nat, c) in
+      match act with
+      | 0%nat => (ST_DATA_BUFFER, c)
+      | 1%nat => rs_line_loop f c
+      | _ =>
+        if rs_nb_is c LF || rs_closed c then rs_line_complete c
+        else rs_line_loop f c
+      end
+    end
+  end.
+Definition rs_RES_LINE (c : connp) : st * connp := rs_line_loop (rs_bytes_fuel c) c.
+
+(* ---- htp_connp_RES_FINALIZE ---- *)
+Definition rs_response_complete (c : connp) : st * connp :=
+  match c_out_tx c with
+  | Some i => tx_state_response_complete_ex cb g i false c
+  | None => (ST_ERROR, c)                    (* if (tx == NULL) return HTP_ERROR *)
+  end.
+(* for (;;) { OUT_COPY_BYTE_OR_RETURN; if (out_next_byte == LF) break; } : None = returned HTP_DATA_BUFFER *)
+Fixpoint rs_finalize_scan (fuel : nat) (c : connp) : bool * connp :=
+  match fuel with
+  | O => (false, rs_fault c)
+  | S f =>
+    match rs_copy_byte c with
+    | None => (false, c)
+    | Some c => if rs_nb_is c LF then (true, c) else rs_finalize_scan f c
+    end
+  end.
+Definition rs_finalize_tail (c : connp) : st * connp :=
+  (* what was buffered from earlier chunks cannot be un-read *)
+  let buffered_before := match k_buf (c_out c) with Some b => length b | None => 0%nat end in
+  match rs_consolidate c with
+  | (None, c) => (ST_ERROR, c)
+  | (Some data, c) =>
+    let bytes_left := length (rs_dbytes data) in
+    if (bytes_left =? 0)%nat then rs_response_complete c
+    else if rs_treat_response_line_as_body data then
+      (* "Unexpected response body" *)
+      let '(rc, c) := rs_process_body data bytes_left c in
+      (rc, rs_clear_buffer c)
+    else
+      (* un-read the probed line so that RES_LINE sees it again *)
+      let c := rs_set_out (fun k => k <| k_read := if (k_read k <? bytes_left)%nat then 0%nat else (k_read k - bytes_left)%nat |>) c in
+      let c := rs_set_out (fun k => if (k_read k <? k_consume k)%nat then k <| k_consume := k_read k |> else k) c in
+      let c := rs_set_out (fun k => match k_buf k with
+                                    | Some b => k <| k_buf := Some (firstn buffered_before b) |>
+                                    | None => k
+                                    end) c in
+      rs_response_complete c
+  end.
+Definition rs_RES_FINALIZE (c : connp) : st * connp :=
+  if negb (rs_closed c) then
+    let c := rs_peek_next c in
+    match rs_nb c with
+    | None => rs_response_complete c
+    | Some b =>
+      if negb (b =? LF)%N || (k_read (c_out c) <=? k_consume (c_out c))%nat then
+        match rs_finalize_scan (rs_bytes_fuel c) c with
+        | (false, c) => (ST_DATA_BUFFER, c)
+        | (true, c) => rs_finalize_tail c
+        end
+      else rs_finalize_tail c
+    end
+  else rs_finalize_tail c.
+
+(* ---- htp_connp_RES_IDLE ---- *)
+Definition rs_RES_IDLE (c : connp) : st * connp :=
+  if negb (rs_has_byte c) then (ST_DATA, c)
+  else
+    let idx := c_out_next_tx_index c in
+    let found := match nth_error (c_txs c) idx with Some (Some _) => true | _ => false end in
+    let '(ok, c) :=
+      if found then
+        let c := c <| c_out_tx := Some (c_txs_shifted c + idx)%nat |> <| c_out_next_tx_index := S idx |> in
+        (true, c <| c_out_content_length := -1 |> <| c_out_body_data_left := -1 |>)
+      else
+        (* "Unable to match response to request" *)
+        let c := c <| c_out_tx := None |> in
+        (* finalize dangling request waiting for next request or body; return value ignored *)
+        let c := if req_state_eqb (c_in_state c) REQ_FINALIZE then
+                   match c_in_tx c with
+                   | Some i => snd (tx_state_request_complete cb g i c)
+                   | None => c
+                   end
+                 else c in
+        match connp_tx_create g c with
+        | (None, c) => (false, c)
+        | (Some id, c) =>
+          let c := c <| c_out_tx := Some id |> in
+          let nuri := mkpuri None None None None None (Some rs_str_uri_not_seen) None None (-1) in
+          let c := tx_upd c id (fun t => t <| t_parsed_uri := Some nuri |> <| t_request_uri := Some rs_str_uri_not_seen |>) in
+          (true, c <| c_in_state := REQ_FINALIZE |> <| c_out_next_tx_index := S idx |>)
+        end in
+    if ok then tx_state_response_start cb (out_txi c) c else (ST_ERROR, c).
+
+(* connp->out_state(connp) *)
+Definition rs_state_fn (s : res_state) (c : connp) : st * connp :=
+  match s with
+  | RES_IDLE => rs_RES_IDLE c
+  | RES_LINE => rs_RES_LINE c
+  | RES_HEADERS => rs_RES_HEADERS c
+  | RES_BODY_DETERMINE => rs_RES_BODY_DETERMINE c
+  | RES_BODY_IDENTITY_CL_KNOWN => rs_RES_BODY_IDENTITY_CL_KNOWN c
+  | RES_BODY_IDENTITY_STREAM_CLOSE => rs_RES_BODY_IDENTITY_STREAM_CLOSE c
+  | RES_BODY_CHUNKED_LENGTH => rs_RES_BODY_CHUNKED_LENGTH c
+  | RES_BODY_CHUNKED_DATA => rs_RES_BODY_CHUNKED_DATA c
+  | RES_BODY_CHUNKED_DATA_END => rs_RES_BODY_CHUNKED_DATA_END c
+  | RES_FINALIZE => rs_RES_FINALIZE c
+  end.
+
+(* ---- htp_connp_res_data ---- *)
+Definition rs_set_out_status (s : Z) (c : connp) : connp := c <| c_out_status := s |>.
+
+(* the rc != HTP_OK tail of the loop body: every exit path writes out_status exactly once *)
+Definition rs_res_exit (rc : st) (c : connp) : connp * Z :=
+  match rc with
+  | ST_DATA | ST_DATA_BUFFER =>
+    let c := snd (res_receiver_send_data cb false c) in             (* return value ignored *)
+    let '(brc, c) := match rc with ST_DATA_BUFFER => rs_res_buffer c | _ => (ST_OK, c) end in
+    match brc with
+    | ST_OK => (rs_set_out_status c_HTP_STREAM_DATA c, c_HTP_STREAM_DATA)
+    | _ => (rs_set_out_status c_HTP_STREAM_ERROR c, c_HTP_STREAM_ERROR)
+    end
+  | ST_STOP => (rs_set_out_status c_HTP_STREAM_STOP c, c_HTP_STREAM_STOP)
+  | ST_DATA_OTHER =>
+    if (k_len (c_out c) <=? k_read (c_out c))%nat
+    then (rs_set_out_status c_HTP_STREAM_DATA c, c_HTP_STREAM_DATA)
+    else (rs_set_out_status c_HTP_STREAM_DATA_OTHER c, c_HTP_STREAM_DATA_OTHER)
+  | _ => (rs_set_out_status c_HTP_STREAM_ERROR c, c_HTP_STREAM_ERROR)
+  end.
+
+(* the for (;;) loop. is_gap: data == NULL && len > 0 *)
+Fixpoint rs_res_loop (fuel : nat) (is_gap : bool) (c : connp) : connp * Z :=
+  match fuel with
+  | O => (rs_set_out_status c_HTP_STREAM_ERROR (rs_fault c), c_HTP_STREAM_ERROR)
+  | S f =>
+    let s := c_out_state c in
+    let gap_ok := res_state_eqb s RES_BODY_IDENTITY_CL_KNOWN || res_state_eqb s RES_BODY_IDENTITY_STREAM_CLOSE in
+    if is_gap && negb gap_ok && negb (res_state_eqb s RES_FINALIZE) then
+      (c, c_HTP_STREAM_CLOSED)                                   (* "Gaps are not allowed during this state" *)
+    else
+      let '(rc, c) := if is_gap && negb gap_ok then rs_response_complete c else rs_state_fn s c in
+      match rc with
+      | ST_OK =>
+        if c_out_status c =? c_HTP_STREAM_TUNNEL then (c, c_HTP_STREAM_TUNNEL)
+        else
+          match rs_handle_state_change c with
+          | (ST_OK, c) => rs_res_loop f is_gap c
+          | (rc, c) => rs_res_exit rc c
+          end
+      | _ => rs_res_exit rc c
+      end
+  end.
+
+(* bound on the number of state-function calls of one htp_connp_res_data: a call that returns HTP_OK has
+   consumed a byte, or is one of a bounded run of zero-width transitions (at most 6 in a row:
+   HEADERS -> BODY_DETERMINE -> FINALIZE -> FINALIZE -> IDLE -> LINE); a byte is read at most twice
+   (the RES_FINALIZE / chunk-length un-read) *)
+Definition rs_res_fuel (len : nat) : nat := (8 * len + 64)%nat.
+
 Definition connp_res_data (data : option bytes) (len : nat) (c : connp) : connp * Z :=
-  match cb 0%nat 0%nat with CB_OK => if Nat.eqb (g_max_tx g) 0 then (c, c_HTP_STREAM_ERROR) else (c, c_HTP_STREAM_ERROR) | _ => (c, c_HTP_STREAM_ERROR) end.
+  if c_out_status c =? c_HTP_STREAM_STOP then (c, c_HTP_STREAM_STOP)
+  else if c_out_status c =? c_HTP_STREAM_ERROR then (c, c_HTP_STREAM_ERROR)
+  else if match c_out_tx c with None => negb (res_state_eqb (c_out_state c) RES_IDLE) | Some _ => false end
+  then (rs_set_out_status c_HTP_STREAM_ERROR c, c_HTP_STREAM_ERROR)
+  else if (len =? 0)%nat && negb (rs_closed c) then (c, c_HTP_STREAM_CLOSED)
+  else
+    let c := rs_set_out (fun k => k <| k_data := data |> <| k_len := len |> <| k_read := 0%nat |>
+                                    <| k_consume := 0%nat |> <| k_receiver := 0%nat |>) c in
+    let c := c <| c_out_data_counter ::= Z.add (Z.of_nat len) |> in
+    if c_out_status c =? c_HTP_STREAM_TUNNEL then (c, c_HTP_STREAM_TUNNEL)
+    else
+      let is_gap := match data with None => (0 <? len)%nat | Some _ => false end in
+      rs_res_loop (rs_res_fuel len) is_gap c.
 
 End WithOracle.
